@@ -1059,9 +1059,11 @@ class BeaconConfig:
             killdate = f"{year:02d}-{month:02d}-{day:02d}"
         else:
             killdate = None
-            year = s.get("SETTING_KILLDATE_YEAR", 0)
-            month = s.get("SETTING_KILLDATE_MONTH", 0)
-            day = s.get("SETTING_KILLDATE_DAY", 0)
+            # look up by index: 16 and 17 are aliased (BOF_ALLOCATOR / SYSCALL_METHOD) so their names are ambiguous
+            raw = self.raw_settings_by_index
+            year = raw.get(BeaconSetting.SETTING_KILLDATE_YEAR.value, 0)
+            month = raw.get(BeaconSetting.SETTING_KILLDATE_MONTH.value, 0)
+            day = raw.get(BeaconSetting.SETTING_KILLDATE_DAY.value, 0)
             if year and month and day:
                 killdate = f"{year:02d}-{month:02d}-{day:02d}"
         return killdate
